@@ -136,8 +136,16 @@ def enum_set(tier):
                 rest = [d for d in U if d not in ds]
                 if rest:
                     eds.append(EnumDef(n, 'conditional', tuple(ds), dead=(rest[0],)))
+                    eds.append(EnumDef(n, 'conditional', tuple(ds), dead=(rest[0],), dead_first=True))
                     if len(rest) > 1:
                         eds.append(EnumDef(n, 'conditional', tuple(ds), dead=(rest[-1], rest[0])))
+                # compiled-out variants that share a discriminant with a live one (mutually exclusive cfgs), declared
+                # after and before the live variant
+                eds.append(EnumDef(n, 'conditional', tuple(ds), dead=(ds[0],)))
+                eds.append(EnumDef(n, 'conditional', tuple(ds), dead=(ds[-1],), dead_first=True))
+                if len(ds) > 1:
+                    eds.append(EnumDef(n, 'conditional', tuple(ds), dead=(ds[-1], ds[0]), dead_first=True))
+                    eds.append(EnumDef(n, 'conditional', tuple(reversed(ds)), dead=tuple(ds), dead_first=(k % 2 == 0)))
     n = 4
     U = range(16)
     sizes = (1, 2, 14, 15, 16) if tier == 'quick' else range(1, 17)
@@ -161,6 +169,8 @@ def enum_set(tier):
         eds += _forms(n, (0, mx))
         eds += _forms(n, (mx, 0))[:1]
         eds.append(EnumDef(n, 'conditional', (0, mx), dead=(1,)))
+        eds.append(EnumDef(n, 'conditional', (0, mx), dead=(mx,), dead_first=True))
+        eds.append(EnumDef(n, 'conditional', (mx, 0), dead=(0, mx)))
     for n in range(9, 65):
         mx = (1 << n) - 1
         eds += _forms(n, (mx,))[:1]
@@ -170,6 +180,7 @@ def enum_set(tier):
         if n in (9, 16, 17, 32, 33, 63, 64):
             eds += _forms(n, (0, mx))
             eds.append(EnumDef(n, 'conditional', (mx, 0), dead=(1, 2)))
+            eds.append(EnumDef(n, 'conditional', (mx, 0), dead=(mx,), dead_first=True))
     if tier == 'thorough':
         # N = 9, 10: the exhaustive enums (512 / 1024 variants)
         for n in (9, 10):
